@@ -47,6 +47,7 @@ class Env:
         cr, ca, cp, fm, mg = _mods()
         for m in (cr, ca, cp):
             self._set(m, "progbar", basic.nobar)
+        self._set(cp, "print", _quiet)     # check_bad / grow chatter
         if self.mode == "sym":
             if self.pools is not None:
                 self.rnd = basic.NDRandom(self.pools)
@@ -92,7 +93,10 @@ class Env:
                 fs.put(fname, fakefs.snap(obj))
 
             def read_from_disk(fname):
-                return fakefs.snap(fs.get(fname))
+                obj = fs.get(fname)
+                if obj is fakefs.UNREADABLE:
+                    raise EOFError("Ran out of input")
+                return fakefs.snap(obj)
 
             self._set(cp, "write_to_disk", write_to_disk)
             self._set(cp, "read_from_disk", read_from_disk)
@@ -128,11 +132,92 @@ class Env:
     def exists(self, p):
         return self.fs.exists(p) if self.mode == "sym" else os.path.exists(p)
 
+    def read_obj(self, p):
+        """The object stored in a crop file (what read_from_disk would return)."""
+        if self.mode == "sym":
+            return self.fs.get(p)
+        import pickle
+
+        with open(p, "rb") as f:
+            return pickle.load(f)
+
+    def write_obj(self, p, obj):
+        if self.mode == "sym":
+            self.fs.put(p, obj)
+        else:
+            import pickle
+
+            with open(p, "wb") as f:
+                pickle.dump(obj, f)
+
+    def make_unreadable(self, p):
+        """Replace a crop file by one that cannot be unpickled (truncated)."""
+        if self.mode == "sym":
+            self.fs.put(p, fakefs.UNREADABLE)
+        else:
+            with open(p, "rb") as f:
+                data = f.read()
+            with open(p, "wb") as f:
+                f.write(data[: max(1, len(data) // 2)])
+
+    def remove(self, p):
+        if self.mode == "sym":
+            self.fs.remove(p)
+        else:
+            os.remove(p)
+
+    def snapshot(self, d):
+        """{relative path: content token} of all files under d, for 'untouched' checks."""
+        if self.mode == "sym":
+            return dict(self.fs.tree(d))
+        out = {}
+        for root, _, files in os.walk(d):
+            for f in files:
+                q = os.path.join(root, f)
+                with open(q, "rb") as fh:
+                    out[q] = fh.read()
+        return out
+
+    def same_snapshot(self, a, b):
+        if self.mode != "sym":
+            return a == b
+        if sorted(a) != sorted(b):
+            return False
+        return all(a[k] is b[k] for k in a)
+
+    def install_clock(self, cp, limit=3):
+        """time.sleep stub for reap(wait=True): raises WaitTimeout after `limit` polls."""
+        clock = Clock(limit)
+        self._set(cp, "time", clock)
+        return clock
+
     def listdir(self, p):
         return self.fs.listdir(p) if self.mode == "sym" else sorted(os.listdir(p))
 
     def join(self, *a):
         return "/".join(a)
+
+
+def _quiet(*a, **k):
+    pass
+
+
+class WaitTimeout(Exception):
+    """raised by the Clock stub when a waiting reaper has polled `limit` times"""
+
+
+class Clock:
+    def __init__(self, limit):
+        self.limit = limit
+        self.polls = 0
+
+    def sleep(self, t):
+        self.polls += 1
+        if self.polls >= self.limit:
+            raise WaitTimeout()
+
+    def time(self):
+        return float(self.polls)
 
 
 def _unpkl(s):
